@@ -488,7 +488,7 @@ fn corrupt(rng: &mut Rng, d: &mut gen::DictSrc) -> String {
         7 => {
             // a number out of range
             let text = String::from_utf8_lossy(&bytes).to_string();
-            let big = *rng.pick(&["65536", "70000", "-1", "32768", "-32769", "99999999999999999999", "+3", "1.5", "0x1",
+            let big = *rng.pick(&["65536", "70000", "-1", "32768", "-32769", "99999999999999999999", "+3", "1.5", "0x1", "65535", "65534", "65535",
                                   // around the widths of usize: products such as `left_id * num_right` must not be formed before the range check
                                   "9223372036854775808", "18446744073709551615", "18446744073709551616", "4611686018427387904", "4294967296"]);
             let mut out = String::new();
@@ -570,7 +570,14 @@ fn corrupt(rng: &mut Rng, d: &mut gen::DictSrc) -> String {
             // a body row whose one id is valid and whose other id is near the width of usize (the index `left * num_right + right`
             // must not be formed before both ids are checked)
             let huge = *rng.pick(&["9223372036854775808", "18446744073709551615", "4611686018427387904", "6148914691236517206", "18446744073709551616"]);
-            let row = if rng.chance(1, 2) { format!("{} {huge} 5\n", rng.below(nr.max(1))) } else { format!("{huge} {} 5\n", rng.below(nl.max(1))) };
+            let row = match rng.below(4) {
+                0 => format!("{} {huge} 5\n", rng.below(nr.max(1))),
+                1 => format!("{huge} {} 5\n", rng.below(nl.max(1))),
+                // an id that is in range for the OTHER side only (non-square connector): right id in [num_right, num_left) ...
+                2 => format!("{} {} 5\n", nr + rng.below(nl.saturating_sub(nr).max(1)), rng.below(nl.max(1))),
+                // ... or left id in [num_left, num_right)
+                _ => format!("{} {} 5\n", rng.below(nr.max(1)), nl + rng.below(nr.saturating_sub(nl).max(1))),
+            };
             if bytes.last().map_or(false, |b| *b != b'\n') {
                 bytes.push(b'\n');
             }
